@@ -4,6 +4,7 @@
 //@ pre-unwind: ctl_process.0:3
 //@ defs: -DXV_CTL_TRACK=0
 //@ flags: --object-bits 10
+//@ timeout: 1800
 //@ props: C14
 //@ expect: postcondition>=3 canary=3
 #include "_unit.h"
